@@ -265,6 +265,7 @@ def run_engine(ctx: RunContext) -> None:
         ctx.stream_started = True
         handlers = ctx.extra.get("handlers") or []
         n = 0
+        type_counts: dict[str, int] = {}
         tap = EventTap(ctx, stream)
         # mirror of the CLI's `_execute`: the real ExecutionContext decides the exit code
         from schemathesis.cli.commands.run.context import ExecutionContext
@@ -276,7 +277,26 @@ def run_engine(ctx: RunContext) -> None:
             for h in handlers:
                 h(ctx, ev)
             n += 1
-            if stop_fault is not None and n == stop_fault["after_event"] and ctx.stop_called_seq is None:
+            tname = type(ev).__name__
+            type_counts[tname] = type_counts.get(tname, 0) + 1
+            hit = False
+            if stop_fault is not None and ctx.stop_called_seq is None:
+                if "after_type" in stop_fault:
+                    # biased stop points: right after the k-th event of a given kind (suite/phase boundaries, failures)
+                    want = stop_fault["after_type"]
+                    if want == "FailedStatefulSuite":
+                        if tname == "SuiteFinished" and ev.phase.value == "Stateful" and ev.status.value in ("failure", "error"):
+                            type_counts[want] = type_counts.get(want, 0) + 1
+                            hit = type_counts[want] == stop_fault["nth"]
+                    elif want == "FailedScenario":
+                        if tname == "ScenarioFinished" and ev.status.value in ("failure", "error"):
+                            type_counts["FailedScenario"] = type_counts.get("FailedScenario", 0) + 1
+                            hit = type_counts["FailedScenario"] == stop_fault["nth"]
+                    else:
+                        hit = tname == want and type_counts[tname] == stop_fault["nth"]
+                else:
+                    hit = n == stop_fault["after_event"]
+            if hit:
                 if not isinstance(ev, events.EngineFinished):
                     ctx.stop_called_at_event = n
                     if stop_fault["kind"] == "consumer_stop":
